@@ -131,11 +131,8 @@ def run(run):
         cases = K.standard_cases(hand + d1, ["range", "dupint", "str", "dt"], [("np", 1, True), ("np", 3, True), ("np", 5, False)])
         cases += K.standard_cases(C.generated_depth2(rng, 4000), ["range"], [("np", 3, True)])
     run_cases(run, "vf.props.C04", "check_case", cases, {})
-    try:
-        from vf.contracts import projection
+    from vf.contracts.registry import run_property_specs
 
-        run_specs(run, projection.SPECS, "C04")
-    except ImportError:
-        pass
+    run_property_specs(run, "C04")
     run.assume("the widened inputs carry three extra columns per table (float, string, int; first, second and last position) that no program mentions")
     run.trust("vf/rt/corpus.py program catalogue")
